@@ -190,7 +190,20 @@ func c18(c *Ctx) {
 			}
 			// compile-time faults appended at the end of some otherwise valid histories
 			if rng.Chance(15) {
-				switch rng.Intn(6) {
+				switch rng.Intn(7) {
+				case 6:
+					// five simultaneously live high-byte registers: only AH, CH, DH, BH exist
+					ctx.Function("pf")
+					var hs []reg.GPVirtual
+					for q := 0; q < 5; q++ {
+						h := ctx.GP8H()
+						hs = append(hs, h)
+						ctx.MOVB(operand.U8(uint8(q)), h)
+					}
+					for q := 1; q < 5; q++ {
+						ctx.ADDB(hs[q], hs[0])
+					}
+					passFault = "unsatisfiable allocation (five high-byte registers)"
 				case 4:
 					ctx.Function("pf")
 					ctx.RDTSC()
